@@ -14,7 +14,8 @@ Fixpoint elem_ok (t : gty) : bool :=
   | TStruct fs => (fix go (fs : list gfield) : bool :=
                      match fs with
                      | [] => true
-                     | GField _ _ ft :: r =>
+                     | GField e _ ft :: r =>
+                         e &&     (* unexported fields are outside the universe: the model pairs compiled fields and values positionally *)
                          (match ft with
                           | TSlice et => elem_ok et
                           | TMap kt vt => (match kt with
